@@ -287,3 +287,126 @@ Theorem C14_config_mutex_translated :
     in_body (qs s) t1 -> in_body (qs s) t2 -> t1 = t2.
 Proof. exact cfg_mutex_translated_lemma. Qed.
 Print Assumptions C14_config_mutex_translated.
+
+(** ** HOW THE ACTIVE TERMINAL WAS FOUND when the library was imported
+    (model/LockImport.v, model/LocksFound.v)
+
+    Vocabulary: [found := FStream k | FDevTty | FNone] — the terminal was found through the
+    k-th standard stream in the order of priority (stdout, stdin, stderr), through the
+    fallback (the controlling terminal; all three standard streams redirected), or not at
+    all; [find_terminal e] for an environment [e] (which standard streams are terminals, is
+    there a controlling terminal).  [fc : fcfg] = a configuration of [LocksCfg] together
+    with the route [f_found fc]: a parameter of the INITIAL configuration.  The system
+    [stepFound inst fc]: [Process.start()] runs the library's start wrapper iff
+    [inst (f_found fc)] (the hooks were installed at import time); otherwise it is the
+    original [Process.start] — no lock operation, nothing handed over, the child runs on
+    the private thread lock of its own process.  [inst_code = found_tty] is the code as it
+    is ([if _tty_fd != -1:] AFTER the search, utils.py:843). *)
+From TI Require Import model.LockImport model.LocksFound model.LocksFoundTie
+  proofs.LocksFoundProofs proofs.LocksFoundGen.
+
+(** a terminal is found iff a standard stream is one or there is a controlling terminal *)
+Theorem C14_find_terminal_found :
+  forall e, found_tty (find_terminal e) = existsb (fun b => b) (e_streams e) || e_ctty e.
+Proof. exact find_terminal_found. Qed.
+Print Assumptions C14_find_terminal_found.
+
+(** whenever a terminal was found — by whatever route — the system IS the one of
+    [C14_config_*] (the hooks are installed) ... *)
+Theorem C14_found_system_is_config_system :
+  forall fc s0 s, found_tty (f_found fc) = true ->
+    reachable_items (stepFound inst_code fc) s0 s -> reachable_items (stepI pol_code (f_q fc)) s0 s.
+Proof. exact found_reachable_cfg. Qed.
+Print Assumptions C14_found_system_is_config_system.
+
+(** ... hence mutual exclusion across threads and processes, for every route *)
+Theorem C14_found_mutex :
+  forall fc, found_tty (f_found fc) = true -> single (q_base (f_q fc)) = false ->
+  forall prog q0 s t1 t2,
+    reachable_items (stepFound inst_code fc) (initQ prog q0) s ->
+    in_body (qs s) t1 -> in_body (qs s) t2 -> t1 = t2.
+Proof. exact found_mutex_lemma. Qed.
+Print Assumptions C14_found_mutex.
+
+Theorem C14_found_trace_accepted :
+  forall fc, found_tty (f_found fc) = true -> single (q_base (f_q fc)) = false ->
+  forall prog q0 s,
+    reachable_items (stepFound inst_code fc) (initQ prog q0) s -> accepts (rev (log (qs s))) = true.
+Proof. exact found_trace_accepted_lemma. Qed.
+Print Assumptions C14_found_trace_accepted.
+
+Theorem C14_found_queries_get_own_reply :
+  forall fc, found_tty (f_found fc) = true -> single (q_base (f_q fc)) = false ->
+  forall prog q0 s t n,
+    reachable_items (stepFound inst_code fc) (initQ prog q0) s -> t_pc (th (qs s) t) = PWait n ->
+    (reqs (qs s) = [(t, n)] /\ reps (qs s) = []) \/ (reqs (qs s) = [] /\ reps (qs s) = [(t, n)]).
+Proof. exact found_queries_lemma. Qed.
+Print Assumptions C14_found_queries_get_own_reply.
+
+Theorem C14_found_children_on_shared_lock :
+  forall fc, found_tty (f_found fc) = true -> single (q_base (f_q fc)) = false ->
+  forall prog q0 s,
+    reachable_items (stepFound inst_code fc) (initQ prog q0) s ->
+    (forall p, lkC s p = free_lock) /\ (forall p, p <> 0 -> cur (qs s) p = LM).
+Proof. exact found_children_on_shared_lock. Qed.
+Print Assumptions C14_found_children_on_shared_lock.
+
+(** no terminal found: no hook; and without hooks [Process.start()] is one thread-local
+    micro-step to the original start — no lock operation, no event, nothing handed over —
+    and a micro-step never takes a thread into the start wrapper, swaps the lock or hands
+    a shared lock over *)
+Theorem C14_none_found_no_hooks : inst_code FNone = false.
+Proof. exact none_found_no_hooks. Qed.
+Print Assumptions C14_none_found_no_hooks.
+
+Theorem C14_nohooks_start_is_original :
+  forall pol sg c q r x ch, t_pc x = SRead ch ->
+    nextF false pol sg c q r x = Some (ANone, with_pc x (SStart ch LT), []).
+Proof. exact nohooks_start_is_original. Qed.
+Print Assumptions C14_nohooks_start_is_original.
+
+Theorem C14_nohooks_no_lock_handover :
+  forall pol sg c q r x a x' ev,
+    wrapper_free (t_pc x) = true -> nextF false pol sg c q r x = Some (a, x', ev) ->
+    wrapper_free (t_pc x') = true
+    /\ match a with ASwap => False | AStart _ LM => False | _ => True end.
+Proof. exact nextF_nohooks_wrapper_free. Qed.
+Print Assumptions C14_nohooks_no_lock_handover.
+
+(** the variant that installs the hooks only when the terminal was found through a
+    standard stream is refuted: terminal found through the fallback, the parent starts a
+    child, parent and child are both inside a synchronized body *)
+Theorem C14_hooks_only_for_std_stream_refuted :
+  exists fc prog q0 sch t1 t2,
+    found_tty (f_found fc) = true /\ single (q_base (f_q fc)) = false /\ t1 <> t2 /\
+    let s := run_items (stepFound inst_stream_only fc) (initQ prog q0) sch in
+    in_body (qs s) t1 /\ in_body (qs s) t2.
+Proof. exact hooks_only_for_std_stream_refuted_lemma. Qed.
+Print Assumptions C14_hooks_only_for_std_stream_refuted.
+
+(** the verdicts of the harness's comparison over environments are consistent: a case is
+    never judged "contradicts the property" while agreeing with the model *)
+Theorem C14_found_check_codes : forall c, checkF c = 0 \/ checkF c = 1 \/ checkF c = 3.
+Proof. exact checkF_codes. Qed.
+Print Assumptions C14_found_check_codes.
+
+(** TRANSLATED obligation (T).  [import_paths] is generated from the module initialisation
+    of utils.py by harness/tx/tx_locks.py (fail-closed): the block is interpreted along
+    every execution path (for / else, try / except OSError, break / continue, if; the
+    branching is the outcome of every [os.open] attempt).  On EVERY path: both hook
+    assignments were executed iff [_tty_fd] was assigned, i.e. iff the path's route finds a
+    terminal — the model's [inst_code].  Trusts: the translator's reading of the block,
+    [OS_IS_UNIX] (the property is about Unix), that [os.open] either returns a descriptor
+    or raises [OSError]. *)
+Theorem C14_source_hooks_installed_iff_terminal_found :
+  forall p, In p import_paths ->
+    ((ip_start p = true /\ ip_run p = true) <-> ip_tty p = true)
+    /\ ip_tty p = found_tty (ip_route p)
+    /\ ip_start p = inst_code (ip_route p) /\ ip_run p = inst_code (ip_route p).
+Proof. exact source_hooks_installed_iff_terminal_found. Qed.
+Print Assumptions C14_source_hooks_installed_iff_terminal_found.
+
+(** ... and the table has a path for each standard stream, the fallback and no terminal *)
+Theorem C14_source_import_paths_cover : paths_cover import_paths 3 = true.
+Proof. exact source_import_paths_cover. Qed.
+Print Assumptions C14_source_import_paths_cover.
